@@ -3025,7 +3025,7 @@ class MaskedBasis(Basis):
             raise ValueError('`indices` out of range \x5b0,{}\x29'.format(len(parent)))
         self._parent = parent
         self._indices = indices
-        self._renumber = evaluable.constant(numeric.invmap(indices, length=parent.ndofs, missing=len(indices)))
+        self._renumber = evaluable.constant(numeric.invmap(indices, length=parent.ndofs+1, missing=len(indices))) # one extra entry, mapping the parent's sentinel for removed dofs to ours
         super().__init__(len(indices), parent.nelems, parent.index, parent.coords)
 
     def get_support(self, dof: Union[int, numpy.ndarray]) -> numpy.ndarray:
